@@ -349,15 +349,15 @@ static void ros_case(Toks& tk, Out& out, RosCase& cs)
     for (std::size_t j = 0; j < cs.nspec; ++j)
       sp.nonzero_jacobian_elements_.insert({ i, j });
   sp.absolute_tolerance_ = std::vector<double>(cs.nspec, 1.0);
-  StateT state(sp);
-  state.temporary_variables_ = std::make_unique<micm::RosenbrockTemporaryVariables<DM>>(sp, cs.params);
+  StateT prepared(sp);
+  prepared.temporary_variables_ = std::make_unique<micm::RosenbrockTemporaryVariables<DM>>(sp, cs.params);
   for (std::size_t c = 0; c < cs.ncells; ++c)
     for (std::size_t s = 0; s < cs.nspec; ++s)
-      state.variables_[c][s] = cs.y0[c * cs.nspec + s];
+      prepared.variables_[c][s] = cs.y0[c * cs.nspec + s];
   // garbage in every scratch member: results must not depend on it
-  for (auto& e : state.jacobian_.AsVector())
+  for (auto& e : prepared.jacobian_.AsVector())
     e = 12345.0;
-  auto* tmp = static_cast<micm::RosenbrockTemporaryVariables<DM>*>(state.temporary_variables_.get());
+  auto* tmp = static_cast<micm::RosenbrockTemporaryVariables<DM>*>(prepared.temporary_variables_.get());
   for (auto& e : tmp->Ynew_.AsVector())
     e = -777.0;
   for (auto& e : tmp->Yerror_.AsVector())
@@ -367,6 +367,10 @@ static void ros_case(Toks& tk, Out& out, RosCase& cs)
   for (auto& k : tmp->K_)
     for (auto& e : k.AsVector())
       e = 999.0;
+
+  // the State handed to Solve is a copy (odd cases) or a moved-to object (even cases) of the prepared one: States are
+  // values, a copy or a move is as good as the original
+  StateT state = ((cs.ncells + cs.nspec) % 2 == 1) ? StateT(prepared) : StateT(std::move(prepared));
 
   ScriptedRos<mocks::MockRates, LS> solver(LS{ sh }, mocks::MockRates{ sh }, state.jacobian_, cs.nspec, sh);
   auto result = solver.Solve(cs.time_step, state, cs.params);
